@@ -89,6 +89,20 @@ function gen1(rng, params, mode) {
     if (multi) rts.splice(0, Math.min(roots.length, rts.length), ...roots.slice(0, Math.max(1, Math.min(roots.length, rts.length))));
     else rts.splice(0, 1, roots[0]);
   }
+  // run-time intersections whose members are ARRAYS, tuples or nullable object types (`string[] & (string | number)[]`,
+  // `[string, number] & unknown[]`, `({ a: string } | null) & ({ b: number } | null)`): the schema is an `allOf`, the documents
+  // are arrays and `null`
+  let extraDocs = [];
+  if (rng.chance(1, 10)) {
+    const T = (t) => [A("typeof"), t];
+    const nul = [A("nullish"), "null"];
+    extraDocs = [["x"], [], [1], ["x", 1], ["x", "y"], null, { a: "s" }, { b: 1 }, { a: "s", b: 1 }];
+    const form = rng.below(3);
+    rts[0] = form === 0 ? [A("allof"), [A("array"), T("string")], [A("array"), [A("anyof"), T("string"), T("number")]]]
+      : form === 1 ? [A("allof"), [A("tuple"), [T("string"), T("number")], A("none")], [A("array"), A("any")]]
+      : [A("allof"), [A("anyof"), [A("object"), [["a", T("string")]], []], nul], [A("anyof"), [A("object"), [["b", T("number")]], []], nul]];
+    if (rng.chance(1, 3)) { rts[0] = [A("object"), [["p", rts[0]]], []]; extraDocs = extraDocs.map((d) => ({ p: d })); }
+  }
   // one named type referred to several times in one print, some of the references carrying a doc comment (a described
   // reference is a node of its own): the flat schema inlines the type at EVERY reference
   if (rng.chance(1, 8)) {
@@ -118,6 +132,7 @@ function gen1(rng, params, mode) {
     if (!isJson(v)) v = randomJson(rng, 2);
     docs.push(encVal(v));
   }
+  for (const d of extraDocs) docs.push(encVal(d));
   return [A("schema-ctx"), env, rts, tpl, key === null ? A("none") : key, overrides, calls, docs];
 }
 const jsonOrThrow = (f) => { try { return { ok: true, v: f() }; } catch (e) { return { ok: false, msg: String(e && e.message) }; } };
